@@ -24,6 +24,14 @@ NOT_APPLICABLE = {
 
 # id -> (technique, level text, level note, design ref)
 CLAIMS = {
+    'C29': ('def-use on zip alignments (representative pairing), sibling pattern for the placement index, who-may-write lint, '
+            'statement-order patterns for NEB atom order, must-reach rule for the small-cell warning',
+            'Static, exhaustive over both makesupercells: decides that tag and placed defect are the same class member, that '
+            'placement goes through __setitem__ with one index formula, that vacancy jumps are built by vacate-then-replace '
+            'crosswise, that every kinetic state is checked and every failing one warns, that mappings are searched for '
+            '(initial, final) in that order, and that the returned keys/index records are what consumers read. The '
+            'geometric content of the supercells is not decided.',
+            'trusts CPython ast', 'DESIGN.md §4 C29'),
     'C31': ('eq/hash shape analysis of Cluster (commutative fold over normalised keys), alpha-insensitive patterns for site '
             'normalisation and the orbit-closure idiom, exchange image of the istransition tests, sibling search-range formula',
             'Static, exhaustive over Cluster and the three cluster generators: decides that hash and equality are translation- '
